@@ -97,7 +97,8 @@ def run(ctx):
                 i = r.choice(rows)
                 return op, {"i": i, "j": r.randint(-lens[i], lens[i] - 1)}
             if op in ("eq_char", "neq_char"):
-                return op, {"c": r.choice(alpha)}
+                # the character as a Python string, or as an encoded character (same encoding) on either side of the operator
+                return op, {"c": r.choice(alpha), "form": r.choice(["str", "str", "encoded-right", "encoded-left", "encoded-left"])}
             if op == "concat":
                 other = ["".join(r.choice(alpha) for _ in range(r.randint(0, 4))) for _ in range(r.randint(0, 3))]
                 return op, {"other": other, "empty_list": r.random() < 0.5, "other_first": r.random() < 0.4}
@@ -377,10 +378,12 @@ def run(ctx):
                 return obj[:, np.array(p["idx"], dtype=int)]
             if op == "elem":
                 return obj[p["i"], p["j"]]
-            if op == "eq_char":
-                return obj == p["c"]
-            if op == "neq_char":
-                return obj != p["c"]
+            if op in ("eq_char", "neq_char"):
+                form = p.get("form", "str")
+                c = p["c"] if form == "str" else mk(p["c"])
+                if form == "encoded-left":
+                    return (c == obj) if op == "eq_char" else (c != obj)
+                return (obj == c) if op == "eq_char" else (obj != c)
             if op == "copy":
                 return obj.copy()
             if op == "ravel":
